@@ -91,3 +91,29 @@ pub fn cut_at_foreign_offset(line: &str) -> &str {
     let n = folded.len() - folded.trim_start().len();
     &line[n..]
 }
+
+/// one iterator searched again and again from a closure handed to `Iterator::all` (Rnn-s iter-resume must report `hay`)
+pub fn iter_resumed_in_closure(hay: &[u32], needles: &[u32]) -> bool {
+    let mut hay = hay.iter();
+    needles.iter().all(|n| hay.any(|h| h == n))
+}
+
+/// the same inside a `for` loop (must report `it`)
+pub fn iter_resumed_in_loop(hay: &[u32], needles: &[u32]) -> usize {
+    let mut it = hay.iter();
+    let mut found = 0;
+    for n in needles {
+        if it.any(|h| h == n) {
+            found += 1;
+        }
+    }
+    found
+}
+
+/// a fresh iterator per repetition (must stay silent)
+pub fn iter_fresh_each_time(hay: &[u32], needles: &[u32]) -> bool {
+    needles.iter().all(|n| {
+        let mut it = hay.iter();
+        it.any(|h| h == n)
+    }) && needles.iter().all(|n| hay.iter().any(|h| h == n))
+}
